@@ -600,7 +600,10 @@ class Path(Expression):
             isinstance(root, str)
             and RE_PROPERTY.fullmatch(root)
             and (nested or root not in RESERVED_WORDS)
+            and not any(ch.isspace() for ch in root)
         ):
+            # (White space, like a no-break space, at the start of an expression is
+            # skipped. It would not be read back as part of a name.)
             buf = [root]
         elif isinstance(root, str):
             # A root segment that would not be read back as a name.
